@@ -247,7 +247,7 @@ func (f *rsFixture) probe(prefix, wantID string) error {
 	select {
 	case err := <-done:
 		return err
-	case <-time.After(20 * time.Second):
+	case <-time.After(120 * time.Second):
 		return errors.New("repository does not answer (blocked)")
 	}
 }
@@ -603,7 +603,7 @@ func statRaceCase(c *engine.Ctx, kind string, mf mechanisms.MechanismFactory, di
 
 	select {
 	case r = <-done:
-	case <-time.After(30 * time.Second):
+	case <-time.After(120 * time.Second):
 		viol(c, entry+"/callback-does-not-return", "provider callback blocked", cs)
 
 		return
